@@ -30,3 +30,9 @@ chk('C15', 'exploration',
     'pairing are compared under nested, outer-first (lazy auxiliary iterators consumed later) and partial consumption with stream poisoning.',
     'Only forward displacements are encodable; indices unique among definitions and non-zero requirement auxiliaries.',
     'ground-truth generator oracle + stream-position poisoning + lazy-iterator consumption patterns', 'DESIGN.md section 4 C15')
+chk('C20', 'exploration',
+    'Ground-truth oracle for generated attribute sections (ARM, RISC-V; several subsections/sub-subsections) under four consumption '
+    'patterns with stream poisoning at every yield; ground truth for generated .ARM.exidx/.ARM.extab pairs over all prel31 displacement '
+    'classes and nine entry shapes; reference EHABI disassembler over all 65536 (opcode, operand) pairs plus random sequences.',
+    'Tag kinds and the opcode table transcribed from the ARM ABI documents; register-list text as llvm-readobj prints it.',
+    'ground-truth generators + reference disassembler + consumption-pattern and stream-poisoning monitors', 'DESIGN.md section 4 C20')
